@@ -102,6 +102,11 @@ func c07Run(rec *evid.Rec, f fataler, cfg c07Cfg) {
 	e := w.C.EDS(k.Namespace, k.Name)
 	crs := e.Status.Canary.ReplicaSet
 	canaryNodes := append([]string(nil), e.Status.Canary.Nodes...)
+	if cfg.FailBy == "timeout" {
+		// the timeout lies behind the canary duration (validation demands it): an unpaused canary may be promoted
+		// by elapsed time before it times out, and both are right. Only a paused canary reaches its timeout for sure.
+		cfg.Paused = true
+	}
 	if cfg.Paused {
 		_ = w.C.SetEDSAnnotation(k.Namespace, k.Name, oracle.AnnCanaryPaused, "true")
 		w.fairRound("c07 paused")
